@@ -1,3 +1,4 @@
+import ChipFiring.Theory.OrientRT
 import ChipFiring.Theory.Serial
 import Std.Data.String.ToInt
 /-
@@ -100,5 +101,14 @@ theorem decimal_roundtrip (k : Int) : k.repr.toInt? = some k := Int.toInt?_repr 
 example : ∃ G : Graph 3, Graph.new 3 false [(1, 0, 2), (2, 1, 1), (0, 1, 1)] = .ok G ∧
     dictEdges G = [(0, 1, 3), (1, 2, 1)] := by
   refine ⟨_, rfl, by decide +kernel⟩
+
+/-- orientations: rebuilding from the list of oriented edges (source first) that `to_dict` writes,
+    in any order, restores every edge state and both counters -/
+theorem orientation_dict_roundtrip (G : Graph n) (hG : G.WF) (o : Orient n) (hinv : Orient.Inv G o)
+    (ps : List (Fin n × Fin n)) (hnd : ps.Nodup)
+    (hps : ∀ a b, (a, b) ∈ ps ↔ 0 < G.adj a b ∧ o.st a b = 1) :
+    ∃ o', Orient.new G (ps.map fun p => (p.1.1, p.2.1)) = .ok o' ∧
+      (∀ x y, o'.st x y = o.st x y) ∧ (∀ v, o'.inD v = o.inD v) ∧ (∀ v, o'.outD v = o.outD v) :=
+  CF.orientation_dict_roundtrip G hG o hinv ps hnd hps
 
 end CF.C15
